@@ -22,14 +22,42 @@ fn drain_exactly(t: &AllocTracker, v: usize) -> bool {
     t.shrink_limit(v).is_ok() && t.shrink_limit(1).is_err()
 }
 
-fn dims() -> (usize, usize) {
-    let (w, h) = ((kani::any::<u8>() & 3) as usize, (kani::any::<u8>() & 3) as usize);
-    kani::assume(w <= MAXDIM && h <= MAXDIM);
-    (w, h)
+/// Dimensions: symbolic (<= MAXDIM, thorough tier: a Vec of symbolic length is expensive for CBMC) when
+/// W == usize::MAX, otherwise the concrete W x H.
+fn dims<const W: usize, const H: usize>() -> (usize, usize) {
+    if W == usize::MAX {
+        let (w, h) = ((kani::any::<u8>() & 3) as usize, (kani::any::<u8>() & 3) as usize);
+        kani::assume(w <= MAXDIM && h <= MAXDIM);
+        (w, h)
+    } else {
+        (W, H)
+    }
 }
+const SYM: usize = usize::MAX;
 
 fn buf_bytes<S>(w: usize, h: usize) -> usize {
     (w * h + 31 / std::mem::size_of::<S>()) * std::mem::size_of::<S>()
+}
+
+/// The AlignedGrid invariant established by with_alloc_tracker / empty_aligned + extend (gr.ag.with_tracker_*,
+/// gr.ag.try_clone_*) and relied upon by every accessor.
+fn inv<S>(g: &AlignedGrid<S>) -> bool {
+    g.buf.len() == g.width * g.height + g.offset && g.offset <= 31 / std::mem::size_of::<S>()
+}
+
+/// A grid in the state with_alloc_tracker leaves it in (see `inv`), built field by field so that the
+/// Vec has a concrete length (a Vec of symbolic length exhausts CBMC's memory in the callers below).
+fn grid_literal<S: Sample, const W: usize, const H: usize, const OFF: usize>(handle: Option<AllocHandle>) -> AlignedGrid<S> {
+    let n = W * H + OFF;
+    let mut buf = Vec::with_capacity(W * H + 31 / std::mem::size_of::<S>());
+    let mut i = 0;
+    while i < n {
+        buf.push(kani::any());
+        i += 1;
+    }
+    let g = AlignedGrid { width: W, height: H, offset: OFF, buf, handle };
+    assert!(inv(&g));
+    g
 }
 
 trait Sample: Default + Clone + Copy + PartialEq + kani::Arbitrary {}
@@ -39,8 +67,8 @@ impl Sample for i32 {}
 // ------------------------------------------------------------------------------------------------
 // with_alloc_tracker
 // ------------------------------------------------------------------------------------------------
-fn with_tracker_contract<S: Sample>() {
-    let (w, h) = dims();
+fn with_tracker_contract<S: Sample, const W: usize, const H: usize>() {
+    let (w, h) = dims::<W, H>();
     let bytes = buf_bytes::<S>(w, h);
     let budget: usize = kani::any();
     let t = AllocTracker::with_limit(budget);
@@ -51,10 +79,11 @@ fn with_tracker_contract<S: Sample>() {
             assert!(budget >= bytes, "[C13] a grid is created only within the budget");
             assert!(grid.handle.is_some() && grid.tracker().is_some(), "[C13] a tracked grid carries its handle for its lifetime");
             assert!(grid.width() == w && grid.height() == h && grid.buf().len() == w * h, "[C02] the grid has width * height samples");
+            assert!(inv(&grid), "[C02] AlignedGrid invariant: buf.len() == width * height + offset, offset < 32 / size_of::<S>()");
             assert!(grid.buf.capacity() * std::mem::size_of::<S>() <= bytes && grid.buf.len() <= grid.buf.capacity(),
                 "[C13] the recorded size covers the real allocation");
             assert!((grid.buf().as_ptr() as usize) % 32 == 0 || w * h == 0, "[C02] the first sample is 32-byte aligned");
-            kani::cover!(w * h > 0);
+            kani::cover!(w * h > 0 || W != SYM);
             let observe_live: bool = kani::any();
             if observe_live {
                 assert!(drain_exactly(&t, budget - bytes), "[C13] Ok: exactly buf_len * size_of::<S>() bytes are taken (one handle)");
@@ -75,8 +104,8 @@ fn with_tracker_contract<S: Sample>() {
     assert!(drain_exactly(&t, after_drop), "[C13] after Err, or after dropping the grid, the whole budget is available again");
 }
 
-fn without_tracker_contract<S: Sample>() {
-    let (w, h) = dims();
+fn without_tracker_contract<S: Sample, const W: usize, const H: usize>() {
+    let (w, h) = dims::<W, H>();
     let r = AlignedGrid::<S>::with_alloc_tracker(w, h, None);
     match r {
         Ok(grid) => {
@@ -94,55 +123,66 @@ fn without_tracker_contract<S: Sample>() {
 // ------------------------------------------------------------------------------------------------
 // try_clone / clone_untracked
 // ------------------------------------------------------------------------------------------------
-fn try_clone_contract<S: Sample>() {
-    let (w, h) = dims();
+fn try_clone_contract<S: Sample, const W: usize, const H: usize, const OFF: usize>() {
+    let (w, h) = (W, H);
     let bytes = buf_bytes::<S>(w, h);
     let budget: usize = kani::any();
     kani::assume(budget >= bytes); // the source grid exists
     let t = AllocTracker::with_limit(budget);
-    let mut src = AlignedGrid::<S>::with_alloc_tracker(w, h, Some(&t)).unwrap();
+    // the source: a tracked grid as with_alloc_tracker creates it (gr.ag.with_tracker_*: one handle of `bytes`)
+    let handle = t.alloc::<S>(w * h + 31 / std::mem::size_of::<S>()).unwrap();
+    let src = grid_literal::<S, W, H, OFF>(Some(handle));
     let (x, y) = ((kani::any::<u8>() & 3) as usize, (kani::any::<u8>() & 3) as usize);
-    let v: S = kani::any();
-    if let Some(s) = src.try_get_mut(x, y) {
-        *s = v;
-    }
     let left = budget - bytes; // gr.alloc_* : what the source took
-    let untracked = src.clone_untracked();
-    assert!(untracked.handle.is_none() && untracked.buf().len() == w * h, "[C13] clone_untracked records nothing");
     let r = src.try_clone();
     match r {
         Ok(c) => {
             assert!(left >= bytes, "[C13] a clone is created only within the remaining budget");
             assert!(c.handle.is_some(), "[C13] the clone of a tracked grid is tracked (same tracker)");
-            assert!(c.width() == w && c.height() == h && c.buf().len() == w * h);
+            assert!(c.width() == w && c.height() == h && c.buf().len() == w * h && inv(&c), "[C02] the clone keeps the AlignedGrid invariant");
             assert!(c.buf.capacity() * std::mem::size_of::<S>() <= bytes, "[C13] the recorded size covers the clone's real allocation");
             assert!(c.try_get_ref(x, y) == src.try_get_ref(x, y), "[C02] the clone has the same samples");
-            kani::cover!(w * h > 0 && c.try_get_ref(x, y).is_some());
+            kani::cover!(W * H == 0 || c.try_get_ref(x, y).is_some());
             if kani::any() {
                 assert!(drain_exactly(&t, left - bytes), "[C13] Ok: the clone takes exactly the buffer size once more");
                 return;
             }
             drop(c);
-            drop(untracked);
-            assert!(drain_exactly(&t, left), "[C13] dropping the clone gives its bytes back (clone_untracked never took any)");
+            assert!(drain_exactly(&t, left), "[C13] dropping the clone gives its bytes back");
         }
         Err(e) => {
             assert!(left < bytes && e.bytes() == bytes, "[C13] Err only when the remaining budget is too small");
             kani::cover!(true);
-            drop(untracked);
-            assert!(drain_exactly(&t, left), "[C13] a failed clone takes nothing");
+            if kani::any() {
+                assert!(drain_exactly(&t, left), "[C13] a failed clone takes nothing");
+                return;
+            }
             drop(src);
-            assert!(drain_exactly(&t, bytes), "[C13] and the source's bytes still come back when it is dropped");
+            assert!(drain_exactly(&t, budget), "[C13] and the source's bytes still come back when it is dropped");
         }
     }
+}
+
+fn clone_untracked_contract<S: Sample, const W: usize, const H: usize, const OFF: usize>() {
+    let bytes = buf_bytes::<S>(W, H);
+    let budget: usize = kani::any();
+    kani::assume(budget >= bytes);
+    let t = AllocTracker::with_limit(budget);
+    let handle = t.alloc::<S>(W * H + 31 / std::mem::size_of::<S>()).unwrap();
+    let src = grid_literal::<S, W, H, OFF>(Some(handle));
+    let c = src.clone_untracked();
+    assert!(c.handle.is_none() && c.buf().len() == W * H && inv(&c), "[C13] clone_untracked records nothing");
+    let (x, y) = ((kani::any::<u8>() & 3) as usize, (kani::any::<u8>() & 3) as usize);
+    assert!(c.try_get_ref(x, y) == src.try_get_ref(x, y), "[C02] the clone has the same samples");
+    assert!(drain_exactly(&t, budget - bytes), "[C13] the budget is untouched by clone_untracked");
 }
 
 // ------------------------------------------------------------------------------------------------
 // index arithmetic of the safe accessors and the subgrid views
 // ------------------------------------------------------------------------------------------------
-fn accessors_contract<S: Sample>() {
-    let (w, h) = dims();
-    let mut grid = AlignedGrid::<S>::with_alloc_tracker(w, h, None).unwrap();
+fn accessors_contract<S: Sample, const W: usize, const H: usize, const OFF: usize>() {
+    let (w, h) = (W, H);
+    let mut grid = grid_literal::<S, W, H, OFF>(None);
     let (x, y) = ((kani::any::<u8>() & 3) as usize, (kani::any::<u8>() & 3) as usize);
     let v: S = kani::any();
     let inside = x < w && y < h;
@@ -185,14 +225,13 @@ fn accessors_contract<S: Sample>() {
             None => assert!(!inside),
         }
     }
-    kani::cover!(inside && x > 0 && y > 0);
-    kani::cover!(w == 0 && h > 0);
+    kani::cover!((inside && x > 0 && y > 0) || W < 2 || H < 2);
 }
 
 macro_rules! instantiate {
     ($($name:ident = $body:expr;)*) => {$(
         #[kani::proof]
-        #[kani::unwind(34)]
+        #[kani::unwind(18)]
         fn $name() {
             $body
         }
@@ -200,11 +239,20 @@ macro_rules! instantiate {
 }
 
 instantiate! {
-    ag_with_tracker_i16 = with_tracker_contract::<i16>();
-    ag_with_tracker_i32 = with_tracker_contract::<i32>();
-    ag_without_tracker_i16 = without_tracker_contract::<i16>();
-    ag_try_clone_i16 = try_clone_contract::<i16>();
-    ag_try_clone_i32 = try_clone_contract::<i32>();
-    ag_accessors_i16 = accessors_contract::<i16>();
-    ag_accessors_i32 = accessors_contract::<i32>();
+    // quick: concrete dimensions
+    ag_with_tracker_i16_2x3 = with_tracker_contract::<i16, 2, 3>();
+    ag_with_tracker_i32_3x1 = with_tracker_contract::<i32, 3, 1>();
+    ag_with_tracker_i32_0x2 = with_tracker_contract::<i32, 0, 2>();
+    ag_without_tracker_i16_2x2 = without_tracker_contract::<i16, 2, 2>();
+    ag_try_clone_i16_2x2 = try_clone_contract::<i16, 2, 2, 0>();
+    ag_try_clone_i32_3x1 = try_clone_contract::<i32, 3, 1, 2>();
+    ag_try_clone_i32_0x2 = try_clone_contract::<i32, 0, 2, 0>();
+    ag_clone_untracked_i16_2x2 = clone_untracked_contract::<i16, 2, 2, 1>();
+    ag_accessors_i16_3x2 = accessors_contract::<i16, 3, 2, 5>();
+    ag_accessors_i32_2x2 = accessors_contract::<i32, 2, 2, 0>();
+    ag_accessors_i32_0x2 = accessors_contract::<i32, 0, 2, 0>();
+    // thorough: symbolic dimensions <= 3 x 3
+    ag_with_tracker_i16_sym = with_tracker_contract::<i16, SYM, SYM>();
+    ag_with_tracker_i32_sym = with_tracker_contract::<i32, SYM, SYM>();
+    ag_without_tracker_i16_sym = without_tracker_contract::<i16, SYM, SYM>();
 }
